@@ -78,14 +78,10 @@ def reach (cands : List Cand) (E : Cand → Cand → Bool) (a : Cand) : List Can
 def reachCount (cands : List Cand) (E : Cand → Cand → Bool) (a : Cand) : Nat :=
   (reach cands E a).length
 
-def insertDescNat (x : Nat) : List Nat → List Nat
-  | [] => [x]
-  | y :: ys => if y < x then x :: y :: ys else if x = y then y :: ys else y :: insertDescNat x ys
-
-/-- group candidates by reach count, largest first -/
+/-- group candidates by reach count, largest first (`score_dict_to_ranking`-style grouping on the
+counts) -/
 def tiersOf (cands : List Cand) (E : Cand → Cand → Bool) : Ranking :=
-  let counts := (cands.map (reachCount cands E)).foldr insertDescNat []
-  counts.map (fun k => cands.filter (fun c => reachCount cands E c = k))
+  scoreToRanking (cands.map (fun c => (c, ((reachCount cands E c : Nat) : Rat)))) true
 
 /-- `dominating_tiers()` -/
 def dominatingTiers (p : Profile) : Ranking := tiersOf (graphCands p) (edge p)
